@@ -26,7 +26,7 @@ FLOORS = {"quick": {"pairs_compared": 50000, "chain_position_combos": 120, "stri
           "thorough": {"pairs_compared": 2000000, "chain_position_combos": 300, "string_ref_calls": 200000, "builds": 50000, "codec_pairs_compared": 350000, "bytes_like_pairs_compared": 100000, "bytes_chain_combos": 80}}
 
 NAMED = ["newtype", "alias", "stralias"]
-POSITIONS = ["root", "coll", "mapval", "tuple", "union", "field"]
+POSITIONS = ["root", "coll", "mapval", "tuple", "union", "field", "pair", "pair"]
 
 
 def outcome(fn, *a):
@@ -58,7 +58,7 @@ def place(prog, gen, spec, pos, tag):
 
 
 def embed_value(pos, v):
-    return {"root": v, "coll": [v, v], "mapval": {"k": v}, "tuple": (3, v), "union": v, "field": None}[pos]
+    return {"root": v, "coll": [v, v], "mapval": {"k": v}, "tuple": (3, v), "union": v, "field": None, "pair": (v, v)}[pos]
 
 
 def canaries(sh):
@@ -157,8 +157,16 @@ def run_case(sh, i, plan):
             kind = rng.choice(["strref", "strref", "fwdref", "strref_dotted", "strref_dotted", "strexpr"])
         chain.append(kind)
         w = gen.wrap_of(w, kind)
-    wsrc, wfield = place(prog, gen, w, pos, "w")
-    tsrc, tfield = place(prog, gen, base, pos, "t")
+    if pos == "pair":
+        # the plain type AND its wrapped form in one type graph (the plain one first, or last)
+        if rng.random() < 0.5:
+            wsrc, tsrc = f"tuple[{base.src}, {w.src}]", f"tuple[{base.src}, {base.src}]"
+        else:
+            wsrc, tsrc = f"tuple[typing.Optional[{w.src}], {base.src}]", f"tuple[typing.Optional[{base.src}], {base.src}]"
+        wfield = tfield = None
+    else:
+        wsrc, wfield = place(prog, gen, w, pos, "w")
+        tsrc, tfield = place(prog, gen, base, pos, "t")
     other = None
     prog.build()
     label = "+".join(chain) + "@" + pos
